@@ -25,10 +25,8 @@ UNIT_POOL = ["m", "nm", "s", "T", "um", "arb. u.", "", "A/m", "rad"]
 LABEL_POOLS = [["x", "y", "z", "w4"], ["a", "b", "c", "d"], ["mx", "my", "mz", "mt"], ["v0", "v1", "v2", "v3"],
                ["re", "im", "p3", "p4"], ["z", "y", "x", "t"], ["c0", "C0", "c_0", "c00"]]
 DTYPES = ["float64", "float64", "float64", "float32", "int64", "int32", "complex128", "complex64", "bool"]
-NP_RTOL, NP_ATOL = F(1, 10 ** 5), F(1, 10 ** 8)
-TAG_ABS = "C17-uneven-abs-tol"
+NP_RTOL, NP_ATOL = F(1, 10 ** 5), F(0)
 TAG_SLABEL = "C17-scalar-label-lost"
-TAG_NPINT = "C17-numpy-int-nvdim"
 TAG_VDIMSDIM = "C17-dim-named-vdims"
 
 
@@ -248,11 +246,20 @@ def generate(rng, tier):
                 cases.append(dict(kind="import", field=fs, cls=cls, mods=mods))
     for k in range(nf):
         cases.append(gen_raw(rng, k % 2 == 0))
-    # probes of reported deviations (oracle only)
+    # scalar fields with an explicit label (known finding C17-scalar-label-lost)
     for k in range(3):
         fs = gen_field(rng, True, tier, nvdim=1)
         fs["vdims"] = [rng.choice(["s", "rho", "T1"])]
-        cases.append(dict(kind="round", field=fs, probe="scalar-label"))
+        cases.append(dict(kind="round", field=fs))
+    # component count held as a numpy integer (as after reading HDF5)
+    for k in range(4 if tier == "quick" else 20):
+        fs = gen_field(rng, k % 2 == 0, tier)
+        fs["np_nvdim"] = True
+        cases.append(dict(kind="round", field=fs))
+    # a geometric dimension called 'vdims' (known finding C17-dim-named-vdims; oracle only)
+    fs = gen_field(rng, True, tier, nd=2, nvdim=1)
+    fs["dims"] = ["vdims", "y"]
+    cases.append(dict(kind="round", field=fs))
     return cases
 
 
@@ -270,7 +277,8 @@ def build_field(fs):
     region = df.Region(p1=[fl(x) for x in fs["p1"]], p2=[fl(x) for x in fs["p2"]], dims=fs["dims"],
                        units=fs["units"], tolerance_factor=float(F(fs["tf"])))
     mesh = df.Mesh(region=region, n=fs["n"])
-    return df.Field(mesh, nvdim=fs["nvdim"], value=np_values(fs), vdims=fs["vdims"], dtype=np.dtype(fs["dtype"]),
+    nvdim = np.int64(fs["nvdim"]) if fs.get("np_nvdim") else fs["nvdim"]
+    return df.Field(mesh, nvdim=nvdim, value=np_values(fs), vdims=fs["vdims"], dtype=np.dtype(fs["dtype"]),
                     unit=fs["unit"])
 
 
@@ -484,9 +492,14 @@ def run_case(c):
             rec["oracle"] = ["round-trip-rejected"]
             obs_coq = "None"
             obs = dict(err=gfield)
-        if c.get("probe") == "scalar-label":
+        reserved = "vdims" in fs["dims"]
+        if reserved:
+            rec["tags"] = [TAG_VDIMSDIM]
+            if rec["oracle"]:
+                rec["oracle"] = ["round-trip-reserved-dim-name"]
+        if fs["nvdim"] == 1 and fs["vdims"] is not None:
             rec["tags"] = [TAG_SLABEL]
-        rec.update(obs=obs, coq=f'CRound {g.b(exact)} {fspec_coq(fs, fo["data"])} {obs_coq}',
+        rec.update(obs=obs, coq=None if reserved else f'CRound {g.b(exact)} {fspec_coq(fs, fo["data"])} {obs_coq}',
                    key=f'round/{exact}/{nd}/{fs["nvdim"]}/{fs["dtype"]}/{fs["vdims"] is None}/{st}/{min(fs["n"])}',
                    size=nd + sum(fs["n"]) + fs["nvdim"])
         return rec
@@ -512,8 +525,6 @@ def run_case(c):
     if st == "ok":
         go = observe_field(gfield)
         bad += must_reject
-        if clearly_uneven and numpy_accepts:
-            rec["tags"].append(TAG_ABS)
         obs_coq = f"(Some {field_coq(go)})"
         obs = short(go)
     else:
